@@ -70,6 +70,30 @@ def run_config(chk, tier, cfgname):
             c16.check_impl(chk, prog, im, cfgname)
     chk.floor("collector-own-collect-impls", own, 6)
     allocation_state(chk, prog, cfgname)
+    # the end of an arena's life: Arena's drop glue drops the context (which destructs and releases every allocation)
+    # before the root (the root, possibly unsized, is the last field). Nothing may look at the objects in between: a
+    # root type with a destructor of its own could. Either the root is dropped first, or every constructor demands a
+    # root that is Collect for every brand - such a type implements Drop only under the unsafe_drop promise.
+    a_ = prog.adts.get("arena::Arena")
+    if chk.anchor("arena::Arena", a_ is not None):
+        fields = a_["variants"][0]["fields"]
+        ci = [i for i, f_ in enumerate(fields) if "context::Context" in f_.get("ty_s", "") or "Context" in f_.get("ty_s", "")]
+        ri = [i for i, f_ in enumerate(fields) if "Rootable<" in f_.get("ty_s", "")]
+        root_first = bool(ci) and bool(ri) and max(ri) < min(ci) and not a_.get("drop_impl")
+        from gcv.props import C12 as _c12
+
+        class _Probe:
+            def __init__(self): self.ok = True; self.n = 0
+            def inst(self, rule, inst, ok, **kw): self.ok = self.ok and bool(ok); self.n += 1
+            def floor(self, *a): pass
+        pr_ = _Probe()
+        _c12.constructors_demand_collect(pr_, prog, cfgname)
+        chk.inst("root-destructor-never-sees-freed-objects", "arena::Arena[%s]" % cfgname, root_first or (pr_.ok and pr_.n >= 4),
+                 detail="Arena drops its context - destructing and freeing every allocation - before its root (fields %s), and "
+                        "its constructors accept roots that are not Collect: such a root's own Drop impl (safe code) can "
+                        "dereference Gc pointers to freed memory" % [f_["name"] for f_ in fields],
+                 sample={"field_order": [f_["name"] for f_ in fields], "root_dropped_first": root_first,
+                         "constructors_demand_collect": pr_.ok})
     initial_collector_state(chk, prog, T, cfgname)
     # the event "value traced" of the mark_one table is GcPtr::trace_value: it must forward to the vtable's
     # trace slot, whose closure calls Collect::trace of the allocated type, on every path
